@@ -105,38 +105,53 @@ where
             if which == 0 && bits != 0 {
                 continue;
             }
-            let before = (live(), maps(), fds());
-            let r = catch_unwind(AssertUnwindSafe(|| -> Result<String, String> {
-                let mc: MemCase<DeserType<'static, D>> = match which {
-                    0 => D::load_mem(&path),
-                    1 => D::load_mmap(&path, flags),
-                    _ => D::mmap(&path, flags),
+            // a difference is confirmed by repeating the load: growth of the allocator's own
+            // structures (heap top, arenas) happens once, a leak every time
+            let mut attempt = || {
+                let before = (live(), maps(), fds());
+                let r = catch_unwind(AssertUnwindSafe(|| -> Result<String, String> {
+                    let mc: MemCase<DeserType<'static, D>> = match which {
+                        0 => D::load_mem(&path),
+                        1 => D::load_mmap(&path, flags),
+                        _ => D::mmap(&path, flags),
+                    }
+                    .map_err(|e| anyhow_code(&e))?;
+                    let (cap, align, zt) = match which {
+                        0 => ((n + 63) / 64 * 64, 64, true),
+                        1 => ((n + 15) / 16 * 16, 4096, true),
+                        _ => (n, 4096, false),
+                    };
+                    let reg = region_obs(&mc, n, cap, align, zt);
+                    let a = case_obs(&mc);
+                    // moved, boxed, read from another thread, sent to another thread
+                    let moved = mc;
+                    let b = case_obs(&moved);
+                    let boxed = Box::new(moved);
+                    let c = case_obs(&boxed);
+                    let d = std::thread::scope(|s| s.spawn(|| case_obs(&boxed)).join().unwrap());
+                    let e = std::thread::spawn(move || case_obs(&boxed)).join().unwrap_or_else(|_| "THREAD-PANIC".into());
+                    let stable = a == b && b == c && c == d && d == e;
+                    Ok(format!("OK:{}|region={}|moves={}", a, reg, if stable { "same" } else { "DIFFERENT" }))
+                }));
+                // the panic payload is dropped before measuring
+                let r: Result<Result<String, String>, ()> = r.map_err(|_| ());
+                let after = (live(), maps(), fds());
+                // the only thing that may stay allocated is the String this observation returned
+                let mine = match &r { Ok(Ok(s)) => (s.capacity() as isize, 1), Ok(Err(s)) => (s.capacity() as isize, if s.capacity() > 0 { 1 } else { 0 }), Err(_) => (0, 0) };
+                let delta = ((after.0).0 - (before.0).0 - mine.0, (after.0).1 - (before.0).1 - mine.1, after.1 as isize - before.1 as isize, after.2 as isize - before.2 as isize);
+                let res = match r { Ok(Ok(s)) => s, Ok(Err(e)) => format!("E:{}", e), Err(_) => "P".into() };
+                (res, delta)
+            };
+            let (res, mut delta) = attempt();
+            if delta != (0, 0, 0, 0) {
+                let (_res2, d2) = attempt();
+                let (_res3, d3) = attempt();
+                if d2 == (0, 0, 0, 0) || d3 == (0, 0, 0, 0) {
+                    delta = (0, 0, 0, 0);
+                } else {
+                    delta = d3;
                 }
-                .map_err(|e| anyhow_code(&e))?;
-                let (cap, align, zt) = match which {
-                    0 => ((n + 63) / 64 * 64, 64, true),
-                    1 => ((n + 15) / 16 * 16, 4096, true),
-                    _ => (n, 4096, false),
-                };
-                let reg = region_obs(&mc, n, cap, align, zt);
-                let a = case_obs(&mc);
-                // moved, boxed, read from another thread, sent to another thread
-                let moved = mc;
-                let b = case_obs(&moved);
-                let boxed = Box::new(moved);
-                let c = case_obs(&boxed);
-                let d = std::thread::scope(|s| s.spawn(|| case_obs(&boxed)).join().unwrap());
-                let e = std::thread::spawn(move || case_obs(&boxed)).join().unwrap_or_else(|_| "THREAD-PANIC".into());
-                let stable = a == b && b == c && c == d && d == e;
-                Ok(format!("OK:{}|region={}|moves={}", a, reg, if stable { "same" } else { "DIFFERENT" }))
-            }));
-            // the panic payload is dropped before measuring
-            let r: Result<Result<String, String>, ()> = r.map_err(|_| ());
-            let after = (live(), maps(), fds());
-            // the only thing that may stay allocated is the String this observation returned
-            let mine = match &r { Ok(Ok(s)) => (s.capacity() as isize, 1), Ok(Err(s)) => (s.capacity() as isize, if s.capacity() > 0 { 1 } else { 0 }), Err(_) => (0, 0) };
-            let delta = ((after.0).0 - (before.0).0 - mine.0, (after.0).1 - (before.0).1 - mine.1, after.1 as isize - before.1 as isize, after.2 as isize - before.2 as isize);
-            let res = match r { Ok(Ok(s)) => s, Ok(Err(e)) => format!("E:{}", e), Err(_) => "P".into() };
+            }
             let leak = if delta == (0, 0, 0, 0) { "".to_string() } else { format!("|LEAK({};{};{};{})", delta.0, delta.1, delta.2, delta.3) };
             parts.push(format!("{}{}={}{}", name, bits, res, leak));
         }
@@ -145,20 +160,29 @@ where
     let mut fails = vec![];
     let fail_path = |label: &str, p2: &std::path::Path, fails: &mut Vec<String>| {
         for (name, which) in [("full", 3), ("mem", 0), ("lmmap", 1), ("mmap", 2)] {
-            let before = (live(), maps(), fds());
-            let r = catch_unwind(AssertUnwindSafe(|| -> Result<(), &'static str> {
-                match which {
-                    3 => { D::load_full(p2).map_err(|e| anyhow_class(&e))?; }
-                    0 => { D::load_mem(p2).map_err(|e| anyhow_class(&e))?; }
-                    1 => { D::load_mmap(p2, Flags::empty()).map_err(|e| anyhow_class(&e))?; }
-                    _ => { D::mmap(p2, Flags::empty()).map_err(|e| anyhow_class(&e))?; }
-                }
-                Ok(())
-            }));
-            let r: Result<Result<(), &'static str>, ()> = r.map_err(|_| ());
-            let after = (live(), maps(), fds());
-            let res = match r { Ok(Ok(())) => "OK".to_string(), Ok(Err(e)) => format!("E:{}", e), Err(_) => "P".into() };
-            let leak = if after == before { "".to_string() } else { format!("|LEAK({};{};{};{})", (after.0).0 - (before.0).0, (after.0).1 - (before.0).1, after.1 as isize - before.1 as isize, after.2 as isize - before.2 as isize) };
+            let attempt = || {
+                let before = (live(), maps(), fds());
+                let r = catch_unwind(AssertUnwindSafe(|| -> Result<(), &'static str> {
+                    match which {
+                        3 => { D::load_full(p2).map_err(|e| anyhow_class(&e))?; }
+                        0 => { D::load_mem(p2).map_err(|e| anyhow_class(&e))?; }
+                        1 => { D::load_mmap(p2, Flags::empty()).map_err(|e| anyhow_class(&e))?; }
+                        _ => { D::mmap(p2, Flags::empty()).map_err(|e| anyhow_class(&e))?; }
+                    }
+                    Ok(())
+                }));
+                let r: Result<Result<(), &'static str>, ()> = r.map_err(|_| ());
+                let after = (live(), maps(), fds());
+                let res = match r { Ok(Ok(())) => "OK".to_string(), Ok(Err(e)) => format!("E:{}", e), Err(_) => "P".into() };
+                let leak = if after == before { "".to_string() } else { format!("|LEAK({};{};{};{})", (after.0).0 - (before.0).0, (after.0).1 - (before.0).1, after.1 as isize - before.1 as isize, after.2 as isize - before.2 as isize) };
+                (res, leak)
+            };
+            let (res, mut leak) = attempt();
+            if !leak.is_empty() {
+                let (_r2, l2) = attempt();
+                let (_r3, l3) = attempt();
+                leak = if l2.is_empty() || l3.is_empty() { String::new() } else { l3 };
+            }
             fails.push(format!("{}.{}={}{}", label, name, res, leak));
         }
     };
